@@ -232,4 +232,167 @@ theorem deadlock_gives_feasible {A : List Acq} {s : State} (hi : Inv A s) (ts : 
       exact huv (hi.mutex u v x h1 h2)
     · exact chain rest t t hch (fun u hu => hwait u (List.mem_cons_of_mem _ hu)) (hwait t (List.mem_cons_self ..))
 
+/-! ### progress: every blocked thread transitively waits for a thread that can take a step -/
+
+/-- lock numbers held by threads are in range -/
+theorem held_lt {A : List Acq} {n : Nat} (hwf : wellFormed A n = true) {s : State} (h : Reach A s) :
+    ∀ t x, x ∈ (s t).held → x < n := by
+  induction h with
+  | init => intro t x hx; simp [init] at hx
+  | step hr hs ih =>
+    rename_i s0 s1
+    have hinv := reach_inv hr
+    cases hs with
+    | request t a hw ha hsame =>
+      intro t' x hx
+      by_cases h : t' = t
+      · subst h; simp at hx; exact ih _ x hx
+      · rw [upd_other _ _ _ _ h] at hx; exact ih t' x hx
+    | grant t l hw hfree =>
+      intro t' x hx
+      by_cases h : t' = t
+      · subst h; simp at hx
+        rcases hx with rfl | hx
+        · obtain ⟨a, haA, hwant, _⟩ := hinv.site _ _ hw
+          simp only [wellFormed, List.all_eq_true, Bool.and_eq_true, decide_eq_true_eq] at hwf
+          rw [← hwant]; exact (hwf a haA).1
+        · exact ih _ x hx
+      · rw [upd_other _ _ _ _ h] at hx; exact ih t' x hx
+    | release t l hw =>
+      intro t' x hx
+      by_cases h : t' = t
+      · subst h; simp at hx; exact ih _ x hx.1
+      · rw [upd_other _ _ _ _ h] at hx; exact ih t' x hx
+
+/-- a forward path in the wait-for graph -/
+def fwd (s : State) : List Nat → Prop
+  | [] => True
+  | [_] => True
+  | a :: b :: r => WaitsFor s a b ∧ fwd s (b :: r)
+
+theorem fwd_snoc (s : State) : ∀ (q : List Nat) (a b : Nat), fwd s (q ++ [a]) → WaitsFor s a b →
+    fwd s (q ++ [a] ++ [b]) := by
+  intro q
+  induction q with
+  | nil => intro a b _ hab; exact ⟨hab, trivial⟩
+  | cons x q ih =>
+    intro a b h hab
+    cases q with
+    | nil => exact ⟨h.1, hab, trivial⟩
+    | cons y q' =>
+      obtain ⟨hxy, hrest⟩ := h
+      exact ⟨hxy, ih a b hrest hab⟩
+
+theorem fwd_suffix (s : State) : ∀ (pre q : List Nat), fwd s (pre ++ q) → fwd s q := by
+  intro pre
+  induction pre with
+  | nil => intro q h; exact h
+  | cons x pre ih =>
+    intro q h
+    apply ih
+    cases hpq : pre ++ q with
+    | nil => trivial
+    | cons y r => rw [List.cons_append, hpq] at h; exact h.2
+
+/-- a forward path `a :: r` whose last element waits for `first` is a chain back to `first` -/
+theorem waitChain_of_fwd (s : State) : ∀ (r : List Nat) (a last first : Nat), fwd s (a :: r) →
+    (a :: r).getLast? = some last → WaitsFor s last first → waitChain s a r first := by
+  intro r
+  induction r with
+  | nil => intro a last first _ hl hw; simp at hl; subst hl; exact hw
+  | cons b r ih =>
+    intro a last first h hl hw
+    obtain ⟨hab, hrest⟩ := h
+    refine ⟨hab, ih b last first hrest ?_ hw⟩
+    simpa [List.getLast?_cons_cons] using hl
+
+/-- every non-first element of a forward path holds a lock -/
+theorem fwd_tail_holds (s : State) : ∀ (p : List Nat) (a : Nat), fwd s (a :: p) → ∀ b ∈ p, (s b).held ≠ [] := by
+  intro p
+  induction p with
+  | nil => intro a _ b hb; cases hb
+  | cons c p ih =>
+    intro a h b hb
+    obtain ⟨⟨l, _, hl⟩, hrest⟩ := h
+    rcases List.mem_cons.mp hb with rfl | hb
+    · intro e; rw [e] at hl; cases hl
+    · exact ih c hrest b hb
+
+theorem path_length_le {A : List Acq} {n : Nat} {s : State} (hi : Inv A s)
+    (hlt : ∀ t x, x ∈ (s t).held → x < n) (p : List Nat) (hnd : p.Nodup)
+    (hne : ∀ b ∈ p, (s b).held ≠ []) : p.length ≤ n := by
+  let rep : Nat → Nat := fun t => (s t).held.headD 0
+  have hrep : ∀ b ∈ p, rep b ∈ (s b).held := by
+    intro b hb
+    have := hne b hb
+    cases hh : (s b).held with
+    | nil => exact absurd hh this
+    | cons x xs => simp [rep, hh]
+  have hnd' : (p.map rep).Nodup := by
+    rw [List.Nodup, List.pairwise_map]
+    refine hnd.imp_of_mem ?_
+    intro a b ha hb hab heq
+    exact hab (hi.mutex a b (rep a) (hrep a ha) (heq ▸ hrep b hb))
+  have hsub : p.map rep ⊆ List.range n := by
+    intro x hx
+    obtain ⟨b, hb, rfl⟩ := List.mem_map.mp hx
+    exact List.mem_range.mpr (hlt b _ (hrep b hb))
+  have := hnd'.length_le_of_subset hsub
+  simpa using this
+
+theorem progress_aux {A : List Acq} {n : Nat} {s : State} (hi : Inv A s)
+    (hlt : ∀ t x, x ∈ (s t).held → x < n) (hnd : ¬ Deadlock s) :
+    ∀ (fuel : Nat) (pre : List Nat) (cur : Nat), (pre ++ [cur]).Nodup → fwd s (pre ++ [cur]) →
+      n + 2 ≤ (pre ++ [cur]).length + fuel → ∃ u, WaitsStar s cur u ∧ Runnable s u := by
+  intro fuel
+  induction fuel with
+  | zero =>
+    intro pre cur hn hf hlen
+    exfalso
+    -- all elements but the first hold a lock: at most n of them
+    cases hp : pre ++ [cur] with
+    | nil => simp at hp
+    | cons a p =>
+      rw [hp] at hn hf hlen
+      have := path_length_le hi hlt p (List.nodup_cons.mp hn).2 (fwd_tail_holds s p a hf)
+      simp at hlen; omega
+  | succ fuel ih =>
+    intro pre cur hn hf hlen
+    by_cases hr : Runnable s cur
+    · exact ⟨cur, .refl cur, hr⟩
+    · -- cur is blocked on a lock that somebody holds
+      simp only [Runnable, not_or] at hr
+      obtain ⟨hw, hfree⟩ := hr
+      cases hwc : (s cur).wait with
+      | none => exact absurd hwc hw
+      | some l =>
+        have : ¬ ∀ v, l ∉ (s v).held := fun h => hfree ⟨l, hwc, h⟩
+        obtain ⟨v, hv⟩ := Classical.not_forall.mp this
+        have hv : l ∈ (s v).held := Classical.not_not.mp hv
+        have hcv : WaitsFor s cur v := ⟨l, hwc, hv⟩
+        by_cases hmem : v ∈ pre ++ [cur]
+        · -- a cycle: contradiction with deadlock freedom
+          exfalso
+          obtain ⟨p1, p2, hsplit⟩ := List.append_of_mem hmem
+          apply hnd
+          refine ⟨v :: p2, ?_, ?_⟩
+          · rw [hsplit] at hn
+            exact (List.nodup_append.mp hn).2.1
+          · have hf2 : fwd s (v :: p2) := fwd_suffix s p1 (v :: p2) (hsplit ▸ hf)
+            have hlast : (v :: p2).getLast? = some cur := by
+              have : (pre ++ [cur]).getLast? = some cur := by simp
+              rw [hsplit, List.getLast?_append] at this
+              cases hgl : (v :: p2).getLast? with
+              | none => simp at hgl
+              | some z => rw [hgl] at this; simpa using this
+            exact waitChain_of_fwd s p2 v cur v hf2 hlast hcv
+        · have hn' : (pre ++ [cur] ++ [v]).Nodup := by
+            rw [List.nodup_append]
+            refine ⟨hn, by simp, ?_⟩
+            intro a ha b hb
+            simp at hb; subst hb
+            intro e; subst e; exact hmem ha
+          obtain ⟨u, hvu, hru⟩ := ih (pre ++ [cur]) v hn' (fwd_snoc s pre cur v hf hcv) (by simp at hlen ⊢; omega)
+          exact ⟨u, .step hcv hvu, hru⟩
+
 end Nervus.LockLTS
